@@ -34,6 +34,7 @@ type Unit struct {
 	cg       *callgraph.Graph
 	cgKind   string
 	declOf   map[*types.Func]*ast.FuncDecl
+	fidx     *flowIndex
 }
 
 // BuildConfig describes one build configuration to load.
@@ -61,7 +62,8 @@ func LoadUnit(repo, name string, bc BuildConfig) (*Unit, error) {
 		return nil, fmt.Errorf("unknown unit %q", name)
 	}
 	dir := filepath.Join(repo, ud.dir)
-	env := append(os.Environ(), "GOWORK=off", "GOFLAGS=-mod=mod", "GOPROXY=off", "GOSUMDB=off", "GOTOOLCHAIN=local")
+	// go/packages shells out to `go`: make sure it is the toolchain that can load /repo (go 1.26).
+	env := append(os.Environ(), "PATH=/opt/veriftools/go1.26.8/bin:"+os.Getenv("PATH"), "GOWORK=off", "GOFLAGS=-mod=mod", "GOPROXY=off", "GOSUMDB=off", "GOTOOLCHAIN=local")
 	env = append(env, bc.Env...)
 	cfg := &packages.Config{
 		Mode:  packages.LoadAllSyntax,
